@@ -48,6 +48,19 @@ def votca_property_exe(fl):
                         "votca_property")
 
 
+def run_retry(cmd, env, timeout):
+    """run_proc, repeated while the loader reports a shared library that a
+    concurrent build of another check is just re-linking"""
+    import time
+    for attempt in range(8):
+        r = vf.run_proc(cmd, env=env, timeout=timeout)
+        if r.rc == 127 and "error while loading shared libraries" in r.err:
+            time.sleep(3 + 2 * attempt)
+            continue
+        break
+    return r
+
+
 def prebuild():
     vf.build_flavour("asan", ["votca_tools", "votca_property"])
     vf.build_harness("asan", "c11")
@@ -114,7 +127,7 @@ def rand_tree(rng, meta_values, meta_attrs, depth=1, budget=None):
 def has_meta(el):
     mv = ma = False
     for e in el.iter():
-        if e.text and any(c in e.text for c in "&<"):
+        if e.text and (any(c in e.text for c in "&<") or "]]>" in e.text):
             mv = True
         for v in e.attrib.values():
             if any(c in v for c in "&<\""):
@@ -145,8 +158,8 @@ def run_votca_property(chk, work, n_random):
 
     def one(item):
         fam, p, _ = item
-        return vf.run_proc([exe, "--file", p, "--format", "XML", "--level",
-                            "1"], env=env, timeout=120)
+        return run_retry([exe, "--file", p, "--format", "XML", "--level",
+                          "1"], env, 120)
 
     results = vf.run_parallel([lambda it=it: one(it) for it in files])
     for (fam, p, t), res in zip(files, results):
@@ -158,6 +171,9 @@ def run_votca_property(chk, work, n_random):
             src = ""
         if fam != "vp_shipped":
             wit["input_xml"] = src
+        if res.rc == 127 and "loading shared libraries" in res.err:
+            chk.inconclusive.append("libraries were being rebuilt: votca_property")
+            continue
         if not chk.proc_result(res, "votca_property " + fam, wit):
             continue
         try:
@@ -193,7 +209,7 @@ def run_votca_property(chk, work, n_random):
     # malformed input must be reported, not crash
     bad = os.path.join(work, "vp_bad.xml")
     open(bad, "w").write("<a><b></a>\n")
-    res = vf.run_proc([exe, "--file", bad], env=env, timeout=60)
+    res = run_retry([exe, "--file", bad], env, 60)
     if chk.proc_result(res, "votca_property malformed-input", {"file": bad}):
         chk.count("vp_malformed", 1)
         if "error" not in (res.err + res.out).lower():
@@ -207,7 +223,7 @@ def run_votca_property(chk, work, n_random):
 
 def run(chk):
     shards = 16
-    per_calc = vf.tier_n(chk.tier, 20, 400)
+    per_calc = vf.tier_n(chk.tier, 40, 400)
     n_trees = vf.tier_n(chk.tier, 2000, 50000)
     n_vp = vf.tier_n(chk.tier, 40, 400)
     vf.build_flavour("asan", ["votca_tools", "votca_property"])
@@ -232,9 +248,12 @@ def run(chk):
             work]))
     jobs.append(("astable", [h, "--mode", "astable"]))
     results = vf.run_parallel(
-        [lambda c=c: vf.run_proc(c, env=env, timeout=3600) for _, c in jobs])
+        [lambda c=c: run_retry(c, env, 3600) for _, c in jobs])
     calcs = set()
     for (what, _), res in zip(jobs, results):
+        if res.rc == 127 and "loading shared libraries" in res.err:
+            chk.inconclusive.append("libraries were being rebuilt: " + what)
+            continue
         for rec in res.records():
             if rec.get("t") == "driver_abort":
                 chk.sanitizer["reports"] += 1
